@@ -534,7 +534,11 @@ class WorkerPool:
         for task in running_tasks:
           if task.done():
             if exc := task.exception():
-              if isinstance(exc, TimeoutError) or is_timeout(exc):
+              # A deadline of the transport arrives as a TimeoutError (see
+              # `async_iterate`), like the retry requests of the worker. Any
+              # other exception is the application's own object, whatever
+              # attributes (e.g. `code`) it carries.
+              if isinstance(exc, TimeoutError):
                 logging.warning(
                     'chainable: %s', f'task timeout, worker: {task.worker}'
                 )
